@@ -72,7 +72,7 @@ def _cases(draw, tier):
     glo, ghi = isa.zones['GLOBAL']
     consts = {'K_ONE': draw(st.integers(0, 9)), 'kval': draw(st.integers(0, 70000))}
     # throw-away operands to learn the static size
-    place0 = {'address': glo, 'consts': {}, 'zones': isa.zones, 'size_hint': 1}
+    place0 = {'address': glo, 'consts': {}, 'zones': isa.zones, 'size_hint': 1, 'minted': {}}
     ops0 = []
     for aid, alt in alts:
         if alt['type'] == 'empty':
@@ -97,8 +97,14 @@ def _cases(draw, tier):
         consts_all['fwd'] = fwd
     placements = []
     shared = {}
+    minted = {}
+    # twin mode: the second statement is the first up to letter case (case-twin constants, case-swapped letter
+    # literals) but denotes other values: nothing but the statement's own operand values may reach its bytes
+    twin = draw(st.integers(0, 3)) == 0
+    if twin:
+        consts_all = isagen.ForcedConsts(consts_all)
     for pi, base in enumerate((a1, a2)):
-        place = {'address': base + 1, 'consts': consts_all, 'zones': isa.zones, 'size_hint': size}
+        place = {'address': base + 1, 'consts': consts_all, 'zones': isa.zones, 'size_hint': size, 'minted': minted}
         ops = []
         for j, (aid, alt) in enumerate(alts):
             if alt['type'] == 'empty':
@@ -115,7 +121,37 @@ def _cases(draw, tier):
                 shared[j] = o
             ops.append(o)
         placements.append({'base': base, 'ops': ops})
+    consts = dict(consts)
+    consts.update(minted)
+    if twin:
+        every = dict(consts)
+        if fwd <= ghi:
+            every['fwd'] = fwd
+        deltas = {n: draw(st.sampled_from([-2, -1, 1, 2, 3, 32, -32])) for n in sorted(every)}
+        names = {n: n.swapcase() for n in every}
+        tw_consts = {names[n]: every[n] + deltas[n] for n in every}
+        ops2 = []
+        for o1, o2, (aid, alt) in zip(placements[0]['ops'], placements[1]['ops'],
+                                      [a for a in alts if a[1]['type'] != 'empty']):
+            ops2.append(o2 if o2.get('addr_dep') else isagen.twin_operand(o1, names))
+        table = dict(every)
+        table.update(tw_consts)
+
+        def _res(name):
+            if name in table:
+                return table[name]
+            raise R.Reject('unresolved ' + name)
+        try:
+            R.encode_instruction(isa, mn, ops2, _res, a2 + 1)
+            if ops2 != placements[1]['ops']:
+                placements[1]['ops'] = ops2
+                consts.update(tw_consts)
+            else:
+                twin = False
+        except (R.Reject, R.Unspecified):
+            twin = False
     return {
+        'twin': twin,
         'isa': cfg, 'fmt': draw(st.sampled_from(['yaml', 'yaml', 'json'])), 'mn': mn, 'variant_intended': vi,
         'consts': consts, 'fwd': fwd if fwd <= ghi else None, 'size_intended': size,
         'placements': placements, 'fill': draw(st.sampled_from([0, 0xEE, 0xFF])),
@@ -217,7 +253,7 @@ def execute(case, ctx):
     detail = {'source': src, 'isa_file': fname, 'argv': argv, 'model': verdict + (': ' + why if why else ''),
               'run': res.brief()}
     feats = field_features(isa, case)
-    classes = sorted(feats) + ['outcome:' + res.klass, 'model:' + verdict]
+    classes = sorted(feats) + ['outcome:' + res.klass, 'model:' + verdict] + (['case-twin-statements'] if case.get('twin') else [])
     findings = []
     if res.klass == 'timeout':
         findings.append(Finding('C01/timeout', detail))
